@@ -21,7 +21,10 @@ func cnfCases(env *core.Env, count int, cert func(i int) bool) []core.Case {
 		var clauses [][]int
 		if nv > 0 {
 			m := r.Intn(4*nv + 2)
-			if r.Intn(2) == 0 { // near the 3-SAT threshold (mixed with a few binary clauses): conflicts
+			if r.Intn(5) < 2 { // chains of parse-time unit propagations
+				nv = 4 + r.Intn(5)
+				clauses = gen.ChainCNF(r, nv)
+			} else if r.Intn(2) == 0 { // near the 3-SAT threshold (mixed with a few binary clauses): conflicts
 				nv = 5 + r.Intn(4)
 				clauses = gen.RandKSAT(r, nv, int(3.8*float64(nv))+r.Intn(nv), 3)
 				clauses = append(clauses, gen.RandKSAT(r, nv, r.Intn(3), 2)...)
@@ -83,10 +86,11 @@ func cdclDesigns(allCert bool) []core.Design {
 func init() {
 	register(&core.Check{
 		ID:          "C01",
+		Amplify:     amplifyAPI,
 		Designs:     cdclDesigns(false),
 		TraceModule: "APITrace",
 		Cases: func(env *core.Env) []core.Case {
-			return cnfCases(env, env.Pick(1500, 20000), func(i int) bool { return i%2 == 0 })
+			return cnfCases(env, env.Pick(2000, 25000), func(i int) bool { return i%2 == 0 })
 		},
 		Cover: func(t core.Case, cov map[string]int) bool {
 			dec, prop, _ := coverAPI(t, cov)
